@@ -29,7 +29,9 @@ PROOF_CORE = {
     'C05': 'every derived attribute equals that of a fresh object after any history (cache '
            'coherence invariant); reassign / relabel_consecutive have their documented '
            'set-theoretic effect on every label array',
-    'C06': 'never modifies the input segmentation image',
+    'C06': 'never modifies the input segmentation image; the merged output does not depend on the '
+           'order in which worker processes finish (keyed stores into a pre-sized list, pure '
+           'workers, serial and parallel merge textually identical)',
     'C08': 'a sliced catalog is independent of its parent (ownership)',
     'C09': 'no result depends on access order or earlier calls (purity / configuration / reset '
            'invariants)',
